@@ -2,6 +2,7 @@ pub mod common;
 pub mod c01;
 pub mod c02;
 pub mod c03;
+pub mod c04;
 pub mod c06;
 pub mod c07;
 pub mod c09;
@@ -19,6 +20,7 @@ pub fn dispatch(run: &Run) -> bool {
         "C01" => c01::run(run),
         "C02" => c02::run(run),
         "C03" => c03::run(run),
+        "C04" => c04::run(run),
         "C06" => c06::run(run),
         "C07" => c07::run(run),
         "C09" => c09::run(run),
